@@ -71,7 +71,7 @@ ADDENDA = {
     "C12": "'c12-busy': a long-lived completer and poller in a tight loop (300 000 acknowledgements per shard); the mixed clients also await writes issued from inside map_get closures.",
     "C13": "Shutdown is also called from inside mapping functions; sequential histories whose command worker died end with shutdown(): it returns and every read is absent.",
     "C14": "Whole ageing windows of never-seen hashes; 70 000 first accesses in one window of 200 000 counters; every second shard runs without a logger; thorough tier: an estimate must survive 62 quiet seconds.",
-    "C15": "'estimate' (paced readers while a writer storms the full cache with puts that make the command worker consult the sketch) ends with the same quiescent identities: the consumer and the worker contend for the sketch's lock there. At quiescence the sketch's position inside its ageing window must equal (records handed over) mod counters; pools up to 1024 buffers and buffers up to 1000 records.",
+    "C15": "Every eleventh read of the 'stall' readers goes through map_get_ref with a mapping function that panics (caught by the reader): the hit is counted, so its record must be accounted too. 'estimate' (paced readers while a writer storms the full cache with puts that make the command worker consult the sketch) ends with the same quiescent identities: the consumer and the worker contend for the sketch's lock there. At quiescence the sketch's position inside its ageing window must equal (records handed over) mod counters; pools up to 1024 buffers and buffers up to 1000 records.",
     "C17": "The configured clock also steps BACKWARDS (1 ms - 3 s, while no key carries a time-to-live, so that every later deadline is unambiguous) with sweeps on both sides of the step: a clock is any implementation of the public trait, and wall clocks are corrected. The stress workload of C18 runs here too (a wedged worker no longer completes writes); sub-millisecond sweeper ticks; single-counter sketches.",
     "C18": "One lock-holding site is stretched a few dozen times per case; clients call back into the cache from map_get closures, from the mapping iterator's function and between iterator items; acknowledgements are pre-polled by another task; the shutdown scenario runs too.",
 }
